@@ -225,7 +225,7 @@ def run(ctx):
         rest = [c for c in cases if not c['sens'] and not uses_helper(c)]
         chosen = rnd.sample(sens, min(400, len(sens))) + rnd.sample(helper, min(250, len(helper))) + rnd.sample(rest, min(150, len(rest)))
     else:
-        chosen = rnd.sample(cases, min(12000, len(cases)))   # (all of them are model-checked; a seeded sample is executed)
+        chosen = rnd.sample(cases, min(9000, len(cases)))   # (all of them are model-checked; a seeded sample is executed)
     execs = [c for c in chosen if uses_helper(c)]
     execs = rnd.sample(execs, min(100 if quick else 1000, len(execs)))
     vh = vlib.build_harness(ctx)
@@ -239,7 +239,7 @@ def run(ctx):
     t = os.path.join(td, 'exec.ndjson')
     run_authfile(ctx, vh, t, cases=write_cases(ctx, execs, 'exec.jsonl'), decodes=2, mode='exec')
     traces.append(t)
-    nrand = 200 if quick else 4000
+    nrand = 200 if quick else 3000
     i = 0
     while nrand > 0:
         t = os.path.join(td, 'rand%d.ndjson' % i)
@@ -250,7 +250,7 @@ def run(ctx):
     for t in traces:
         tally(ctx, t)
     ctx.log('probed %d TLC configurations (%d also with real helper programs) and %d random ones: %s' % (
-        len(chosen), len(execs), 200 if quick else 4000, ctx.cov['per_op']))
+        len(chosen), len(execs), 200 if quick else 3000, ctx.cov['per_op']))
     ctx.cov['samples'] = [dict(tlc_exported_configuration=sample_of(c)) for c in (chosen[0], chosen[len(chosen) // 2])]
     with open(traces[-1]) as f:
         f.readline()
